@@ -57,11 +57,13 @@ def systematic(tier):
 
 
 def make_ids(kind, n):
+    """Ids and tags of one kind.  Ids whose text is a prefix of another id's text, and tags likewise, are included on
+    purpose (file names are built from the string forms)."""
     if kind == 'int':
-        return [10 + 7 * i for i in range(n)], [None, 1, 2]
+        return [1, 10, 12, 101][:n], [None, 1, 10]
     if kind == 'uuid':
         return [uuid.UUID(int=(0xABC << 64) + i) for i in range(n)], [None, uuid.UUID(int=77), uuid.UUID(int=78)]
-    return [f'proc-{i}' for i in range(n)], [None, 'alpha', 'beta_2']
+    return ['calc', 'calc2', 'calc21', 'other'][:n], [None, 'alpha', 'alpha_2']
 
 
 def random_case(rng, tier):
